@@ -334,7 +334,7 @@ def case_strategy(tier):
     return st.fixed_dictionaries({"addrs": servers, "pooling": st.booleans(), "prefix": st.sampled_from([b"", b"", b"p:", b"\xffns/"]),
                                   "keys": keys2, "script": script, "dups": dups, "spell": st.one_of(st.none(), st.lists(st.integers(0, 4), min_size=1, max_size=5)),
                                   "subclass": st.sampled_from([None, None, "namespace"]),
-                                  "coll": st.sampled_from(["list", "list", "tuple", "iter", "generator", "map", "dictview"])})
+                                  "coll": st.sampled_from(["list", "list", "tuple", "iter", "generator", "map", "dictview", "wrapper"])})
 
 
 def grid_cases(tier, seed):
